@@ -166,6 +166,80 @@ CLAIMED = {
        "checked on generated reports, not proved; c++filt supplies expected demanglings.",
   technique="Lean 4 proofs over escape/scan models + byte-for-byte differential ties + independent parsers on whole reports",
   design="6.C18"),
+ "C03": dict(
+  text=("Proof (12 theorems) over the Writers model for all line maps with counts up to 2^64-1: covdir, coveralls and "
+        "html carry line i+1 at position i - the count itself or the not-instrumented marker, never confused "
+        "(C03_entry_faithful), no instrumented line dropped; coveralls branch quadruples rebuild every vector (C05); "
+        "cobertura lists exactly the instrumented lines with their hits and conditions; ActiveData covered/uncovered "
+        "lists partition the lines by count. Cobertura branch fidelity is proved under the guard the code forces and "
+        "refuted without it (known finding C03-cobertura-branch-without-line). The byte layer (serde_json, quick-xml, "
+        "Tera, tabled) is trusted and read back: every writer and option variant (lcov, coveralls/+, covdir, ade, files, "
+        "markdown incl. missed ranges, cobertura/pretty, html with a generated source tree) is decoded by independent "
+        "readers and must equal the projection of the results the format carries; array encodings are tied to the model."),
+  note=COMMON_NOTE + "Third-party serialisers below tree level are trusted; demangling is off in the generated sets "
+       "(an opaque String -> String); precision variants are C13's subject.",
+  technique="Lean 4 proofs over position-encoding models + independent decoders on every writer's real output",
+  design="6.C03"),
+ "C10": dict(
+  text=("Proof (15 theorems, all full strength) over an event-level model of parse_jacoco_xml_report: for every "
+        "well-formed serialisation (any class/sourcefile interleaving, attribute order, extra attributes and elements, "
+        "escaping, empty or start/end tags) of every report, parse returns exactly sem of the report; element order and "
+        "ignored content are irrelevant; the parser terminates on EVERY event sequence with fuel 2*events+1 and end of "
+        "input inside an element is a Parse error (after fix 34e25d5); error kinds; the is_jacoco sniff is exactly "
+        "'marker within the first 256 bytes' (after fix 82d1c8b). Tie: the real parser on ~6000 generated reports per "
+        "quick run (well-formed, mutated, truncated), the independent Rust sem on every well-formed case, quick-xml's "
+        "tokenizer cross-checked per case."),
+  note=COMMON_NOTE + "Modelled, not verified: the quick-xml tokenizer (bytes to events), UTF-8 decoding of names, "
+       "hash-map order (results compared sorted). Known finding C14-jacoco-branch-vector-alloc.",
+  technique="Lean 4 proofs over an event-level parser model with fuel + differential correspondence + independent semantics oracle",
+  design="6.C10"),
+ "C11": dict(
+  text=("Proof (18 theorems) over an executable model of rewrite_paths/normalize_path/is_covered with the file system "
+        "as a finite tree parameter, for all configurations, file systems and maps: selection-iff, ignore/keep and "
+        "covered/uncovered partitions (per key and as multisets), data pass-through, the is_covered rule, prefix removal, "
+        "the escape criterion of normalize_path, normal form of the absolute path, and relative-under-the-source-dir "
+        "(full strength after fix 52345c0). Normal form of the relative path is refuted by a closed witness and proved "
+        "under its guard (known finding C11-mapping-backslash). Tie: the real rewrite_paths, normalize_path, std::path "
+        "and globset against the model on ~16.7k cases per quick run over generated trees and all option combinations."),
+  note=COMMON_NOTE + "globset (subset literal/?/*/**) and std::path are modelled and compared on every run; the file "
+       "system is a finite symlink-free tree parameter; Java/Kotlin partial paths, exclusion markers (C16) and the CLI "
+       "wiring are outside the model.",
+  technique="Lean 4 proofs over a path/glob/rewrite model with a file-system parameter + differential correspondence over generated trees",
+  design="6.C11"),
+ "C12": dict(
+  text=("The full uniqueness statement is proved FALSE of the code (C12_unique_false, five-spelling witness replayed on "
+        "rewrite_paths; known finding C12-respelled-duplicates). Proved: uniqueness under either guard (keys already "
+        "normal without path options; files existing under a clean source dir canonicalised by add_results), one "
+        "add_results entry per canonical path, totals count once under uniqueness (and the closed witness that they do "
+        "not otherwise). Tie: add_results -> rewrite_paths -> output_covdir in-process against the model; per-directory "
+        "covdir sums checked on the real JSON."),
+  note=COMMON_NOTE + "FS assumptions as in C11; in-process only.",
+  technique="Lean 4 refutation by closed witness + guarded uniqueness proofs + differential correspondence",
+  design="6.C12"),
+ "C13": dict(
+  text=("Proof (29 theorems; 25 full strength) for every result set and directory tree of any depth over the Stats "
+        "model of the lcov, covdir, cobertura, html, markdown and ade writers: per-file totals equal the counts of the "
+        "listed records, every directory/package/global total is the sum of its children up to the root, covered <= "
+        "total, covered + missed = total, exact-rational rates in [0,1]/[0,100] with each writer's zero-total convention "
+        "(markdown after fix 6c25d0d). Two statements are false of the code and proved false from closed witnesses with "
+        "_partial theorems (known findings C13-ade-null-zero-lines, C13-html-root-dir-replaces-index). Agreement of "
+        "printed figures with the exact rate within the printed precision is checked on every run, not proved."),
+  note=COMMON_NOTE + "Rust floating point and the third-party serialisers are not modelled; html sum theorems assume "
+       "distinct (directory, name) pairs (C12); line numbers >= 1 for covdir.",
+  technique="Lean 4 proofs (tree induction, exact rationals) over a model of the summary computations + decoded-report differential oracle",
+  design="6.C13"),
+ "C17": dict(
+  text=("Proof (17 theorems) over a Producer model on abstract layouts: C17_items_exact (item multiset = closed form of "
+        "the artifact multiset), outcomes incl. 'No input files found', gcno x gcda pairing, orphans, gcda-only, decoys, "
+        "the .info/.xml sniffing rules exactly (after fix 82d1c8b), path mapping. Packaging and argument-order invariance "
+        "are proved _partial under the guard that gcno files sharing a (stem, llvm) key have one content; a closed "
+        "witness shows the guard is necessary (known finding C17-gcno-same-stem-last-wins). Tie: the real grcov::producer "
+        "on dir/zip/plain layouts of generated artifact multisets with exact item comparison, layout A vs layout B, and "
+        "CLI runs for report equality."),
+  note=COMMON_NOTE + "File system, walkdir, zip, symlink/hard-link extraction are exercised, not modelled; hash-map "
+       "iteration order up to permutation; non-enclosed zip names are outside the model (skipped since 5f37686).",
+  technique="Lean 4 proofs over an abstract-layout producer model + differential correspondence on real dir/zip/plain layouts",
+  design="6.C17"),
 }
 
 PENDING_REASON = "not claimed in this revision: model and check still being built (see DESIGN.md section 10)"
